@@ -368,14 +368,14 @@ func (f *Frame) applyContract(callee *ssa.Function, ct *FuncContract, args []Val
 	for _, l := range ct.Lets {
 		ctx.binds[l.Name] = ctx.eval(l.E)
 	}
-	for k, rq := range ct.Requires {
+	for k, rq := range f.en.activeClauses(ct.Requires, ct) {
 		t := ctx.evalBool(rq.E)
 		label := rq.Label
 		if label == "" {
 			label = fmt.Sprint(k + 1)
 		}
 		name := f.callPath + vc.siteName("pre."+label+"@call "+callee.Name())
-		vc.oblige(name, "pre", implies(reach, t), f.props, f.where(pos), "requires "+rq.Src+" of "+ct.Key)
+		vc.oblige(name, "pre", implies(reach, t), preProps(rq, f), f.where(pos), "requires "+rq.Src+" of "+ct.Key)
 	}
 	if ct.NoReturn {
 		return f.freshVal("noret", rt, h), "false"
@@ -393,7 +393,7 @@ func (f *Frame) applyContract(callee *ssa.Function, ct *FuncContract, args []Val
 	h.now = newNow
 	res := f.freshVal(f.prefix+"res "+callee.Name(), rt, h)
 	post := &SpecCtx{f: f, fn: callee, params: args, heap: h, old: entry, binds: ctx.binds, result: &res, pkg: ctx.pkg}
-	for _, en := range ct.Ensures {
+	for _, en := range f.en.activeClauses(ct.Ensures, ct) {
 		vc.assume(implies(reach, post.evalBool(en.E)))
 	}
 	return res, reach
@@ -433,4 +433,22 @@ func (en *Engine) inRepo(fn *ssa.Function) bool {
 		}
 	}
 	return false
+}
+
+// preProps: a call-site obligation for a tagged requires clause serves only the tagged
+// properties (and only where the calling function serves them too).
+func preProps(rq Clause, f *Frame) []string {
+	if len(rq.Props) == 0 {
+		return f.ctProps()
+	}
+	return rq.Props
+}
+
+// ctProps: the property tags of the function under verification (root frame).
+func (f *Frame) ctProps() []string {
+	r := f.frameRoot()
+	if r.ct != nil {
+		return r.ct.Props
+	}
+	return f.props
 }
